@@ -32,7 +32,9 @@ manifest = {
     'engines': [{'name': 'kvc', 'path': '/verif/kvc', 'serves_properties': [c['property_id'] for c in checks],
                  'kind_free_text': 'own AST->SMT verification-condition generator for a Python subset (symbolic interpreter, loop contracts, ghost state), z3 5.1 / cvc5 back ends; native replay in /venv/bin/python'}],
     'checks': checks,
-    'notes': 'See DESIGN.md. ./check --selftest runs the mutation self-test of the engine on a scratch copy.',
+    'notes': ('See DESIGN.md. ./check --selftest runs the mutation self-test of the engine on a scratch copy.  Repairs of genuine defects committed in /repo '
+              '(unguarded, message starts with "fix:"): 57762e2 (F16, C01), 07e6cb4 (F18, C11); recorded as fixed in known_findings.json, which also lists the '
+              'known findings (reported as KNOWN-FINDING lines, exit 0).  tools/validate.py validates MANIFEST.json and evidence/*.json against the schemas.'),
     'not_applicable': na,
 }
 json.dump(manifest, open(os.path.join(HERE, 'MANIFEST.json'), 'w'), indent=1)
